@@ -10,6 +10,7 @@ package compose_test
 // the driver through the current-case file).
 
 import (
+	"regexp"
 	"context"
 	"errors"
 	"fmt"
@@ -226,6 +227,41 @@ func checkC13(c CaseC13) (*vkit.Failure, vkit.Meta) {
 			if !errors.Is(rerr, compose.ErrExceedMaxSteps) {
 				return vkit.Failf("sentinel-not-matchable", "model says the step limit is exceeded; errors.Is(err, ErrExceedMaxSteps) is false; err=%s", shortErr(rerr))
 			}
+			if !ref.Ambiguous && !ref.ExecsUncertain {
+				// the graph node whose inner graph ran out of steps is the failing node: its path, nothing else
+				got := ""
+				if mm := nodePathRe.FindStringSubmatch(rerr.Error()); mm != nil {
+					got = mm[1]
+				}
+				want := strings.ReplaceAll(ref.FailPath, "/", ", ")
+				// chains generate their node keys: compare only the depth where a chain contains a step of the path
+				cur, viaChain := c.Spec, false
+				for _, seg := range strings.Split(ref.FailPath, "/") {
+					if cur == nil || seg == "" {
+						break
+					}
+					if cur.Mode == "chain" {
+						viaChain = true
+						break
+					}
+					if n := cur.Node(seg); n != nil {
+						cur = n.Sub
+					} else {
+						cur = nil
+					}
+				}
+				if viaChain {
+					if strings.Count(got, ",") == strings.Count(want, ",") && (got == "") == (want == "") {
+						got = want
+					}
+				}
+				if got != want {
+					return &vkit.Failure{Kind: "step-limit-error-path", Sig: "step-limit-error-path", Msg: fmt.Sprintf("the step limit was exceeded in the graph at path [%s]; the error names node path [%s]; err=%s", want, got, shortErr(rerr))}
+				}
+				if ref.FailPath != "" {
+					m.Labels = append(m.Labels, "nested-step-limit")
+				}
+			}
 		case "canceled":
 			if !errors.Is(rerr, context.Canceled) {
 				return vkit.Failf("cancellation-not-matchable", "a body cancelled the context before the next step; errors.Is(err, context.Canceled) is false; err=%s", shortErr(rerr))
@@ -251,6 +287,8 @@ func checkC13(c CaseC13) (*vkit.Failure, vkit.Meta) {
 	}
 	return f, m
 }
+
+var nodePathRe = regexp.MustCompile(`node path: \[([^\]]*)\]`)
 
 func TestC13(t *testing.T) {
 	c13Rec = vkit.NewRecorder("C13")
